@@ -102,6 +102,17 @@ def annotation_names(node: ast.AST, lambdas: bool = True) -> list[str]:
     return out
 
 
+def lambda_names(node: ast.AST) -> list[str]:
+    """names the bodies of the lambdas inside `node` read (their own parameters excepted): needed
+    when the lambda is called — module scope, every statement of the module has run"""
+    out: list[str] = []
+    for n in ast.walk(node):
+        if isinstance(n, ast.Lambda):
+            params = {a.arg for a in n.args.args + n.args.kwonlyargs + n.args.posonlyargs} | ({n.args.vararg.arg} if n.args.vararg else set()) | ({n.args.kwarg.arg} if n.args.kwarg else set())
+            out += [x for x in names_in(n.body, lambdas=False) if x not in params]
+    return out
+
+
 def bound_by(stmt: ast.stmt) -> list[str]:
     if isinstance(stmt, (ast.Import, ast.ImportFrom)):
         return [(a.asname or a.name).split(".")[0] for a in stmt.names if a.name != "*"]
@@ -173,8 +184,10 @@ def simulate(expr: ast.AST, hidden: set[str], is_bound) -> str:
       "ok"              nothing hidden is read
       "name_error"      an unbound name is read before anything else goes wrong (NameError)
       "exception"       a hidden value is subscripted, called or dereferenced (TypeError/AttributeError/KeyError)
-      "silent"          hidden values are read but only passed on (`Optional[Address]`, `Dict[str, int]`): no
-                        exception, the result is not the type the module means
+      "passed_on"       hidden values are read but only handed on (`Optional[Address]`, `Dict[str, int]`): what
+                        receives them decides — typing turns None into NoneType (no exception, the result is not
+                        the type the module means), takes a str as forward reference, rejects most other values
+                        (TypeError), pydantic cannot build a schema for a FieldInfo
       "value_dependent" a hidden value is an operand of `|` or of another operator: depends on the value"""
     silent = False
 
@@ -233,13 +246,13 @@ def simulate(expr: ast.AST, hidden: set[str], is_bound) -> str:
         return "exception"
     except _Dep:
         return "value_dependent"
-    return "silent" if silent else "ok"
+    return "passed_on" if silent else "ok"
 
 
 def class_scope_problems(code: str | ast.Module) -> list[dict]:
     """Every (class, hidden name, hiding member, use) of the module.  `phase`:
     "class_body"     — the use is evaluated while the class body runs, after the hiding member;
-                       `effect`: what the evaluation does ("exception" / "silent" / "value_dependent")
+                       `effect`: what the evaluation does ("exception" / "passed_on" / "value_dependent")
     "class_creation" — the use is a deferred annotation, evaluated by whoever resolves the class's
                        annotations in the class namespace once the body has run;
                        `effect_v2`: pydantic v2 at class creation (names bound by earlier statements of
@@ -344,7 +357,8 @@ AFFECTED = {
 
 def applicable(problems: list[dict], kind: str) -> list[dict]:
     """The hidings that make output of this kind misbehave, with `effect` ("exception": the
-    evaluation raises; "silent": it yields another type without raising; "value_dependent": not
+    evaluation raises; "passed_on": the member's value reaches a typing construct — another type without
+    an exception (None) or an exception of that construct; "value_dependent": not
     decided statically — reported only when the run shows it) and `observed_at`."""
     how = AFFECTED.get(kind, {})
     out = []
@@ -355,7 +369,7 @@ def applicable(problems: list[dict], kind: str) -> list[dict]:
         eff = p[field]
         if eff in ("ok", "name_error"):
             continue
-        out.append(dict(p, observed_at=at, effect=eff, certain=eff in ("exception", "silent")))
+        out.append(dict(p, observed_at=at, effect=eff, certain=eff in ("exception", "passed_on")))
     return out
 
 
@@ -413,3 +427,195 @@ def bucket_key(text: str) -> str:
     t = re.sub(r"'[^']*'", "'…'", text)
     t = re.sub(r'"[^"]*"', '"…"', t)
     return t[:110]
+
+
+# ---------------------------------------------------------------- the emitted module as the Lean model sees it (Dcg.Model.ClassScope)
+KIND_SX = {"pydantic.BaseModel": "v1", "pydantic_v2.BaseModel": "v2", "dataclasses.dataclass": "dc", "typing.TypedDict": "td", "msgspec.Struct": "ms"}
+
+
+def _names_sx(names) -> str:
+    return "(" + " ".join(hx(n) for n in names) + ")"
+
+
+def expr_sx(n: ast.AST, seen: set[str]) -> str:
+    """evaluation skeleton of an expression (the constructors of Dcg.Model.ClassScope.Expr)"""
+    if isinstance(n, ast.Name):
+        seen.add(n.id)
+        return f"(n {hx(n.id)})"
+    if isinstance(n, (ast.Constant, ast.Lambda)):
+        return "l"
+    if isinstance(n, ast.Subscript):
+        args = n.slice.elts if isinstance(n.slice, ast.Tuple) else [n.slice]
+        return "(s " + " ".join([expr_sx(n.value, seen)] + [expr_sx(a, seen) for a in args]) + ")"
+    if isinstance(n, ast.Call):
+        return "(c " + " ".join([expr_sx(n.func, seen)] + [expr_sx(a, seen) for a in n.args] + [expr_sx(k.value, seen) for k in n.keywords]) + ")"
+    if isinstance(n, ast.Attribute):
+        return f"(a {expr_sx(n.value, seen)})"
+    if isinstance(n, (ast.Tuple, ast.List, ast.Set)):
+        return "(t" + "".join(" " + expr_sx(x, seen) for x in n.elts) + ")"
+    if isinstance(n, ast.Dict):
+        return "(t" + "".join(" " + expr_sx(x, seen) for x in list(n.keys) + list(n.values) if x is not None) + ")"
+    if isinstance(n, ast.Starred):
+        return f"(t {expr_sx(n.value, seen)})"
+    return "(o" + "".join(" " + expr_sx(c, seen) for c in ast.iter_child_nodes(n) if isinstance(c, ast.expr)) + ")"
+
+
+def _N(node: ast.AST) -> list[str]:
+    return names_in(node, lambdas=False)
+
+
+def _A(node: ast.AST) -> list[str]:
+    return annotation_names(node, lambdas=False)
+
+
+def _site(uses: list[str], node: ast.AST, seen: set[str]) -> str:
+    late = lambda_names(node)
+    seen.update(uses)
+    seen.update(late)
+    return f"({_names_sx(uses)} {_names_sx(late)} {expr_sx(node, seen)})"
+
+
+def _tuple_node(nodes: list[ast.AST]) -> ast.AST:
+    return ast.Tuple(elts=list(nodes), ctx=ast.Load())
+
+
+def _kept_by_dataclass(value: ast.AST) -> bool:
+    if isinstance(value, ast.Call) and isinstance(value.func, ast.Name) and value.func.id == "field":
+        return any(k.arg == "default" for k in value.keywords)
+    return True
+
+
+def _class_sx(c: ast.ClassDef, binds_module: bool, header: list[str], seen: set[str], out: list[str]) -> None:
+    """appends the hoisted nested classes of `c`, then `c` itself, to `out`"""
+    items = []
+    for b in c.body:
+        if isinstance(b, ast.AnnAssign) and isinstance(b.target, ast.Name):
+            m = b.target.id
+            ann = _site(_A(b.annotation), b.annotation, seen)
+            val, kept = "-", True
+            if b.value is not None:
+                val = _site(_N(b.value), b.value, seen)
+                kept = _kept_by_dataclass(b.value)
+            items.append(f"({hx(m)} {_names_sx([m] if b.value is not None else [])} {ann} {val} {1 if kept else 0})")
+        elif isinstance(b, ast.Assign):
+            tg = [t.id for t in b.targets if isinstance(t, ast.Name)]
+            items.append(f"({hx(tg[0] if tg else '?')} {_names_sx(tg)} - {_site(_N(b.value), b.value, seen)} {1 if _kept_by_dataclass(b.value) else 0})")
+        elif isinstance(b, (ast.FunctionDef, ast.AsyncFunctionDef)):
+            uses = [n for d in b.decorator_list for n in _N(d)]
+            node = _tuple_node(b.decorator_list + b.args.defaults + [k for k in b.args.kw_defaults if k is not None])
+            site = f"({_names_sx(uses)} {_names_sx([n for d in b.decorator_list for n in lambda_names(d)])} {expr_sx(node, seen)})"
+            seen.update(uses)
+            items.append(f"({hx(b.name)} {_names_sx([b.name])} - {site} 1)")
+        elif isinstance(b, ast.ClassDef):
+            uses = [n for bb in b.bases for n in _N(bb)]
+            node = _tuple_node(b.decorator_list + b.bases + [k.value for k in b.keywords])
+            site = f"({_names_sx(uses)} {_names_sx([n for bb in b.bases for n in lambda_names(bb)])} {expr_sx(node, seen)})"
+            seen.update(uses)
+            items.append(f"({hx(b.name)} {_names_sx([b.name])} - {site} 1)")
+            _class_sx(b, False, [], seen, out)
+        elif isinstance(b, ast.Expr) and not isinstance(b.value, ast.Constant):
+            items.append(f"({hx('?')} () - {_site(_N(b.value), b.value, seen)} 1)")
+    seen.update(header)
+    out.append(f"(cls {hx(c.name)} {1 if binds_module else 0} {_names_sx(header)} ({' '.join(items)}))")
+
+
+def module_sx(code: str, kind: str) -> str | None:
+    """request line `classscope.check …` for one emitted module; None when the module has a
+    statement form the model does not have (none is generated today)"""
+    tree = ast.parse(code)
+    future = has_future_annotations(tree)
+    seen: set[str] = set()
+    out: list[str] = []
+
+    def late(nodes) -> None:
+        names = [n for x in nodes for n in lambda_names(x)]
+        if names:
+            seen.update(names)
+            out.append("(late" + "".join(" " + hx(n) for n in names) + ")")
+
+    for s in tree.body:
+        if isinstance(s, (ast.Import, ast.ImportFrom)):
+            out.append("(imp" + "".join(" " + hx(n) for n in bound_by(s)) + ")")
+        elif isinstance(s, ast.ClassDef):
+            header: list[str] = []
+            for d in s.decorator_list:
+                header += _N(d)
+            for b in s.bases:
+                if isinstance(b, ast.Subscript):
+                    header += _N(b.value) + _A(b.slice)
+                else:
+                    header += _N(b)
+            for k in s.keywords:
+                header += _N(k.value)
+            _class_sx(s, True, header, seen, out)
+            late(s.decorator_list + s.bases + [k.value for k in s.keywords])
+        elif isinstance(s, ast.AnnAssign):
+            val: list[str] = []
+            if s.value is not None:
+                val = _A(s.value) if isinstance(s.annotation, ast.Name) and s.annotation.id == "TypeAlias" else _N(s.value)
+            ann = _A(s.annotation)
+            seen.update(val + ann)
+            out.append(f"(asg {_names_sx(bound_by(s))} {_names_sx(val)} {_names_sx(ann)})")
+            late(([s.value] if s.value is not None else []) + [s.annotation])
+        elif isinstance(s, ast.Assign):
+            val = _A(s.value)
+            seen.update(val)
+            out.append(f"(asg {_names_sx(bound_by(s))} {_names_sx(val)} -)")
+            late([s.value])
+        elif isinstance(s, ast.Expr):
+            val = _N(s.value)
+            seen.update(val)
+            out.append("(ex" + "".join(" " + hx(n) for n in val) + ")")
+            late([s.value])
+        elif isinstance(s, (ast.FunctionDef, ast.AsyncFunctionDef)):
+            val = [n for d in s.decorator_list for n in _N(d)]
+            seen.update(val)
+            out.append(f"(fn {hx(s.name)}" + "".join(" " + hx(n) for n in val) + ")")
+            late(s.decorator_list)
+        else:
+            return None
+    return f"classscope.check {KIND_SX[kind]} {_names_sx(sorted(seen & BUILTINS))} {1 if future else 0} ({' '.join(out)})"
+
+
+def _unhx(t: str) -> str:
+    body = t[1:]
+    return "".join(chr(int(p, 16)) for p in body.split(",")) if body else ""
+
+
+def lean_problems(reply: str) -> set[tuple] | None:
+    """`ok ((order x..) (hides …) …)` → set of tuples"""
+    if not reply.startswith("ok ("):
+        return None
+    toks = reply[3:].replace("(", " ( ").replace(")", " ) ").split()
+    out: set[tuple] = set()
+    i, depth, cur = 0, 0, []
+    for t in toks:
+        if t == "(":
+            depth += 1
+            if depth == 2:
+                cur = []
+        elif t == ")":
+            if depth == 2:
+                tag = cur[0]
+                if tag == "hides":
+                    out.add(("hides", _unhx(cur[1]), _unhx(cur[2]), _unhx(cur[3]), cur[4], cur[5]))
+                else:
+                    out.add((tag, _unhx(cur[1])))
+            depth -= 1
+        else:
+            cur.append(t)
+    return out
+
+
+def python_problems(static: list[dict], hidings: list[dict]) -> set[tuple]:
+    """the Python analyses' verdict in the same vocabulary (`static` = scope_analysis of c02.py,
+    `hidings` = applicable(class_scope_problems(code), kind))"""
+    out: set[tuple] = set()
+    for p in static:
+        if p["mechanism"] == "shadowed_name":
+            out.add(("rebind", p["name"]))
+        else:
+            out.add(("order" if p["mechanism"] == "order" else "missing", p["name"]))
+    for p in hidings:
+        out.add(("hides", p["cls"].split(".")[-1], p["user"], p["name"], "body" if p["phase"] == "class_body" else "creation", p["effect"]))
+    return out
